@@ -118,6 +118,14 @@ def _die_with_parent():
         ctypes.CDLL("libc.so.6", use_errno=True).prctl(1, signal.SIGKILL)  # PR_SET_PDEATHSIG
     except Exception:  # pylint: disable=broad-except
         pass
+    try:
+        # developer aid: `kill -USR1 <worker pid>` prints the worker's Python stack to stderr
+        import faulthandler
+        import signal
+
+        faulthandler.register(signal.SIGUSR1, all_threads=True)
+    except Exception:  # pylint: disable=broad-except
+        pass
 
 
 def replay_file(mod, path):
@@ -161,6 +169,8 @@ def main(argv=None):
             print(f"replay {a.replay}: {bucket}: {msg}")
             print(f"VIOLATION property={prop} replay={a.replay}")
             return 1
+        if a.tier == "quick" and "PV_CASE_LIMIT_S" not in os.environ:
+            core.CASE_LIMIT_S = 60  # only the trigger of the deterministic step count (never a verdict); workers are forked and inherit it
         return run(mod, prop, a.tier, seed, a.scale, a.only, t0)
     except HarnessError as e:
         log(f"HARNESS ERROR: {e}")
